@@ -267,6 +267,24 @@ def translate(repo):
         for s in STRUCTS:
             if s not in decls:
                 raise ParseError("%s: struct %s not found" % (fl, s))
+        # an explicit auto-trait impl ANYWHERE else in the flavour (search objects, paths, iterators, serde, macros) or at
+        # the crate root is outside the declarations modelled here: the tie is broken, not silently ignored
+        roots = [os.path.join(repo, "src", fl)] + ([os.path.join(repo, "src")] if fl == FLAVOURS[0] else [])
+        for root in roots:
+            for dirpath, dirs, files in os.walk(root):
+                if root.endswith("src"):
+                    dirs[:] = [d for d in dirs if d not in FLAVOURS]
+                for f in sorted(files):
+                    if not f.endswith(".rs"):
+                        continue
+                    path = os.path.join(dirpath, f)
+                    if os.path.relpath(path, os.path.join(repo, "src", fl)) in FILES:
+                        continue
+                    text = strip_comments(open(path).read())
+                    m = re.search(r"\bimpl\b[^;{]*\b(Send|Sync|Unpin|UnwindSafe|RefUnwindSafe)\b\s+for\b[^;{]*", text)
+                    if m:
+                        raise ParseError("%s: explicit auto-trait impl outside the modelled declarations: %s: `%s`" % (
+                            fl, os.path.relpath(path, repo), " ".join(m.group(0).split())[:120]))
         lines = []
         for s in STRUCTS:
             send = [b for (tr, tg, b) in impls if tr == "Send" and tg == s]
